@@ -21,14 +21,16 @@ VARIABLES code,      \* deployed version of each app (-1: not installed)
           rec,       \* rec[a][i]: number of django_evolution rows for label i of app a
           execs,     \* execs[a][i]: how often label i had its SQL executed
           last,      \* outcome of the last operation
+          baseDone,  \* the rest of the project (contenttypes' migrations, ...) has been brought up by a
+                     \* full run; until then every full run has something to do whatever the two apps need
           hist
 
-vars == <<code, stored, tab, rec, execs, last, hist>>
+vars == <<code, stored, tab, rec, execs, last, baseDone, hist>>
 Labels == 1..MaxVer
 Zero == [a \in Apps |-> [i \in Labels |-> 0]]
 
 Init == /\ code = [a \in Apps |-> -1] /\ stored = [a \in Apps |-> -1] /\ tab = [a \in Apps |-> -1]
-        /\ rec = Zero /\ execs = Zero /\ last = [op |-> "init"] /\ hist = <<>>
+        /\ rec = Zero /\ execs = Zero /\ last = [op |-> "init"] /\ baseDone = FALSE /\ hist = <<>>
 
 Installed == { a \in Apps : code[a] >= 0 }
 Log(op) == hist' = Append(hist, op) /\ last' = op
@@ -37,7 +39,7 @@ Deploy(a, v) ==
     /\ v > code[a] /\ v <= MaxVer
     /\ code' = [code EXCEPT ![a] = v]
     /\ Log([op |-> "deploy", app |-> a, v |-> v])
-    /\ UNCHANGED <<stored, tab, rec, execs>>
+    /\ UNCHANGED <<stored, tab, rec, execs, baseDone>>
 
 (* what one `evolve --execute` does *)
 Pending(a) == { i \in 1..code[a] : rec[a][i] = 0 }
@@ -55,13 +57,17 @@ Reaches(a) == IF New(a) THEN TRUE
 RunOn(S, opname) ==
     /\ S # {} /\ S \subseteq Installed
     /\ LET bad == { a \in S : ~Reaches(a) }
-           required == \E a \in S : New(a) \/ Muts(a) # {}
-       IN IF bad # {}
+           full == opname = "run"
+           required == (full /\ ~baseDone) \/ \E a \in S : New(a) \/ Muts(a) # {}
+           idle == /\ Log([op |-> opname, apps |-> S, outcome |-> "nothing", executed |-> [a \in Apps |-> {}]])
+                   /\ UNCHANGED <<code, stored, tab, rec, execs, baseDone>>
+       IN \* the API run limited to some apps evolves only if something is required, and asks
+          \* nothing else; the command also refuses a project it cannot bring to its models
+          IF ~full /\ ~required THEN idle
+          ELSE IF bad # {}
           THEN /\ Log([op |-> opname, apps |-> S, outcome |-> "rejected", executed |-> [a \in Apps |-> {}]])
-               /\ UNCHANGED <<code, stored, tab, rec, execs>>
-          ELSE IF ~required
-          THEN /\ Log([op |-> opname, apps |-> S, outcome |-> "nothing", executed |-> [a \in Apps |-> {}]])
-               /\ UNCHANGED <<code, stored, tab, rec, execs>>
+               /\ UNCHANGED <<code, stored, tab, rec, execs, baseDone>>
+          ELSE IF ~required THEN idle
           ELSE /\ execs' = [a \in Apps |-> [i \in Labels |->
                                IF a \in S /\ i \in Muts(a) THEN execs[a][i] + 1 ELSE execs[a][i]]]
                \* every queued task records its unapplied labels, with or without SQL; a new app
@@ -70,7 +76,11 @@ RunOn(S, opname) ==
                                IF a \in S /\ i \in Pending(a) THEN rec[a][i] + 1 ELSE rec[a][i]]]
                /\ stored' = [a \in Apps |-> IF a \in S THEN code[a] ELSE stored[a]]
                /\ tab' = [a \in Apps |-> IF a \in S THEN code[a] ELSE tab[a]]
-               /\ Log([op |-> opname, apps |-> S, outcome |-> "executed",
+               /\ baseDone' = (baseDone \/ full)
+               \* seen from the two apps, a run that only brought up the rest of the project did nothing
+               /\ Log([op |-> opname, apps |-> S,
+                       outcome |-> IF \E a \in S : New(a) \/ Muts(a) # {} \/ Pending(a) # {}
+                                   THEN "executed" ELSE "nothing",
                        executed |-> [a \in Apps |-> IF a \in S THEN Muts(a) ELSE {}]])
                /\ UNCHANGED code
 Run == RunOn(Installed, "run")
@@ -82,8 +92,9 @@ RunFails ==
     /\ Installed # {}
     /\ \A a \in Installed : Reaches(a) /\ ~New(a)
     /\ \E a \in Installed : Muts(a) # {}
+    /\ baseDone        \* (the rest of the project is up: the first statement is one of the apps')
     /\ Log([op |-> "runfail", apps |-> Installed, outcome |-> "failed", executed |-> [a \in Apps |-> {}]])
-    /\ UNCHANGED <<code, stored, tab, rec, execs>>
+    /\ UNCHANGED <<code, stored, tab, rec, execs, baseDone>>
 RunOnly(a) == a \in Installed /\ Cardinality(Installed) > 1 /\ RunOn({a}, "runonly")
 
 (* mark-evolution-applied --app-label a LABEL: refuses labels that are already applied *)
@@ -94,7 +105,7 @@ Mark(a, i) ==
        THEN Log([op |-> "mark", app |-> a, label |-> i, ok |-> FALSE]) /\ UNCHANGED rec
        ELSE Log([op |-> "mark", app |-> a, label |-> i, ok |-> TRUE])
             /\ rec' = [rec EXCEPT ![a][i] = 1]
-    /\ UNCHANGED <<code, stored, tab, execs>>
+    /\ UNCHANGED <<code, stored, tab, execs, baseDone>>
 
 (* --all: the whole sequence; as found it refuses when ANY label is already applied *)
 MarkAll(a) ==
@@ -104,7 +115,7 @@ MarkAll(a) ==
        THEN Log([op |-> "markall", app |-> a, ok |-> FALSE]) /\ UNCHANGED rec
        ELSE Log([op |-> "markall", app |-> a, ok |-> TRUE])
             /\ rec' = [rec EXCEPT ![a] = [i \in Labels |-> IF i <= code[a] THEN 1 ELSE @[i]]]
-    /\ UNCHANGED <<code, stored, tab, execs>>
+    /\ UNCHANGED <<code, stored, tab, execs, baseDone>>
 
 (* wipe-evolution [--app-label a] LABEL: exactly one matching row must exist *)
 Wipe(a, i, withLabel) ==
@@ -116,7 +127,7 @@ Wipe(a, i, withLabel) ==
           ELSE /\ Log([op |-> "wipe", app |-> a, label |-> i, scoped |-> withLabel, ok |-> TRUE])
                /\ rec' = IF withLabel THEN [rec EXCEPT ![a][i] = 0]
                          ELSE [x \in Apps |-> [rec[x] EXCEPT ![i] = 0]]
-    /\ UNCHANGED <<code, stored, tab, execs>>
+    /\ UNCHANGED <<code, stored, tab, execs, baseDone>>
 
 Next == /\ Len(hist) < MaxOps
         /\ \/ \E a \in Apps, v \in 0..MaxVer : Deploy(a, v)
